@@ -330,6 +330,10 @@ func vfConfinementWorld() (p *Posix, protected map[*zzvfos.Inode]string) {
 
 // VfConfinement: C04 – no client-supplied path-like value makes a posix entry point read, create, change or remove
 // anything that belongs to another bucket, another bucket's version store, or lies outside the gateway root.
+// vfUp4 leads a hostile version id out of the object's version directory (<versions>/<bucket>/aa/bb/cc/<sha256>/): with one
+// or two more ".." segments from the hostile value it reaches the version store of another bucket or the file system root.
+const vfUp4 = "../../../../"
+
 func VfConfinement() {
 	seg := 3 + zzvf.Tier()
 	zzvf.Bound("segments_max", seg)
@@ -371,15 +375,15 @@ func VfConfinement() {
 			Body: bytes.NewReader([]byte("Z")), ContentLength: &one})
 	case 5:
 		name = "GetObject versionId"
-		id := "../../" + h
+		id := vfUp4 + h
 		_, err = p.GetObject(vfCtx(), &s3.GetObjectInput{Bucket: vfStr("bkt"), Key: &k, VersionId: &id, Range: vfStr("")})
 	case 6:
 		name = "DeleteObject versionId"
-		id := "../../" + h
+		id := vfUp4 + h
 		_, err = p.DeleteObject(vfCtx(), &s3.DeleteObjectInput{Bucket: vfStr("bkt"), Key: &k, VersionId: &id})
 	case 7:
 		name = "HeadObject versionId"
-		id := "../../" + h
+		id := vfUp4 + h
 		_, err = p.HeadObject(vfCtx(), &s3.HeadObjectInput{Bucket: vfStr("bkt"), Key: &k, VersionId: &id})
 	case 8:
 		name = "DeleteObjects key (from the request document)"
@@ -387,20 +391,20 @@ func VfConfinement() {
 		_, err = p.DeleteObjects(vfCtx(), &s3.DeleteObjectsInput{Bucket: vfStr("bkt"), Delete: &types.Delete{Objects: []types.ObjectIdentifier{{Key: &kk}}}})
 	case 9:
 		name = "DeleteObjects versionId"
-		id := "../../" + h
+		id := vfUp4 + h
 		_, err = p.DeleteObjects(vfCtx(), &s3.DeleteObjectsInput{Bucket: vfStr("bkt"), Delete: &types.Delete{Objects: []types.ObjectIdentifier{{Key: &k, VersionId: &id}}}})
 	case 10:
 		name = "PutObjectRetention versionId"
-		err = p.PutObjectRetention(vfCtx(), "bkt", k, "../../"+h, true, []byte("{}"))
+		err = p.PutObjectRetention(vfCtx(), "bkt", k, vfUp4+h, true, []byte("{}"))
 	case 11:
 		name = "GetObjectRetention versionId"
-		_, err = p.GetObjectRetention(vfCtx(), "bkt", k, "../../"+h)
+		_, err = p.GetObjectRetention(vfCtx(), "bkt", k, vfUp4+h)
 	case 12:
 		name = "PutObjectLegalHold versionId"
-		err = p.PutObjectLegalHold(vfCtx(), "bkt", k, "../../"+h, true)
+		err = p.PutObjectLegalHold(vfCtx(), "bkt", k, vfUp4+h, true)
 	case 13:
 		name = "GetObjectLegalHold versionId"
-		_, err = p.GetObjectLegalHold(vfCtx(), "bkt", k, "../../"+h)
+		_, err = p.GetObjectLegalHold(vfCtx(), "bkt", k, vfUp4+h)
 	case 14:
 		name = "ListParts uploadId"
 		id := "../../../" + h
@@ -424,7 +428,7 @@ func VfConfinement() {
 	case 17:
 		name = "CopyObject source versionId"
 		dst := "copy"
-		src := "bkt/x?versionId=../../" + h
+		src := "bkt/x?versionId=" + vfUp4 + h
 		_, err = p.CopyObject(vfCtx(), s3response.CopyObjectInput{Bucket: vfStr("bkt"), Key: &dst, CopySource: &src, ExpectedBucketOwner: vfStr("caller")})
 	case 18:
 		name = "admin ChangeBucketOwner bucket"
